@@ -37,7 +37,7 @@ ASSUMPTIONS = [
     "nothing is demanded about when within the call sequence a frame is returned",
     "check-sequence accessors may present the two octets as bytes or as an integer in either octet order",
 ]
-MUST_FIRE = {"quick": ["cut_after_escape", "max_size_frame", "header_only_frame", "leading_noise", "special_check_sequence_value", "bystander_reader_instance", "chunks_as_bytearray"], "thorough": ["cut_after_escape", "max_size_frame", "header_only_frame", "leading_noise", "extra_escaped_octets"]}
+MUST_FIRE = {"quick": ["cut_after_escape", "max_size_frame", "header_only_frame", "leading_noise", "special_check_sequence_value", "bystander_reader_instance", "chunks_as_bytearray", "identical_frames_back_to_back", "stalled_delivery"], "thorough": ["cut_after_escape", "max_size_frame", "header_only_frame", "leading_noise", "extra_escaped_octets"]}
 
 
 def gen(rng, tier, index):
@@ -52,6 +52,11 @@ def gen(rng, tier, index):
     for seq in range(nframes):
         items.append(hdlc_gen.clean_frame(rng, stuffing, abort, seq=seq, small=not big and nframes > 8))
         items.append({"t": "flags", "n": rng.choice([1, 1, 1, 2, 2, 3, 17])})
+    if rng.random() < 0.1:
+        # a meter whose registers did not change sends the same frame again, octet for octet
+        at = rng.choice([i for i, it in enumerate(items) if it["t"] == "frame"])
+        for _ in range(rng.choice([1, 1, 2, 4])):
+            items[at + 1 : at + 1] = [{"t": "flags", "n": rng.choice([1, 1, 2])}, copy.deepcopy(items[at])]
     wire, spans = hdlc_gen.assemble(items, stuffing)
     hot = [s["start"] for s in spans] + [s["end"] for s in spans]
     hot += [i + 1 for i, b in enumerate(wire) if b == 0x7D][:200]
@@ -88,7 +93,7 @@ def execute(sc):
     in_domain = in_domain and all(
         sc["items"][i]["t"] == "flags" for i in range(len(sc["items"])) if sc["items"][i]["t"] != "frame" and not (i == 0 and sc["items"][i]["t"] == "raw")
     ) and all(
-        sc["items"][i - 1]["t"] == "flags" and i + 1 < len(sc["items"]) and sc["items"][i + 1]["t"] == "flags" for i in range(len(sc["items"])) if sc["items"][i]["t"] == "frame"
+        i >= 1 and sc["items"][i - 1]["t"] == "flags" and i + 1 < len(sc["items"]) and sc["items"][i + 1]["t"] == "flags" for i in range(len(sc["items"])) if sc["items"][i]["t"] == "frame"
     )
     if not in_domain:  # a shrink candidate that left the property's domain proves nothing
         return {"violations": [], "digest": "void", "nontrivial": False, "void": True, "key": "void", "faults": {}, "probes": {}, "states": (), "sim_s": 0.0, "summary": {}}
@@ -154,6 +159,8 @@ def execute(sc):
         probes["bystander_reader_instance"] = 1
     if sc["cuts"].get("as"):
         probes["chunks_as_bytearray"] = 1
+    if any(a[0]["octets"] == b[0]["octets"] for a, b in zip(sent, sent[1:])):
+        probes["identical_frames_back_to_back"] = 1
     probes[f"cfg_{int(stuffing)}{int(abort)}"] = 1
     probes[f"frag_{sc['cuts']['m']}"] = 1
     return {
